@@ -10,7 +10,7 @@
 //              handler invocations = number of "*** ERROR: In line <n>" reports on stderr, error line = <n>, output = its stdout.
 #include "common.h"
 #include "rec.h"
-#include "reuse.h" // modes 0-2: every other case (hash of the case) reads with a reader OBJECT that has read an incremental primer text before
+#include "reuse.h" // modes 0-2: every other case (hash of the case) reads with a reader OBJECT that has read - or refused - a primer text before (chosen by the hash)
 #include <potassco/aspif.h>
 #include <potassco/aspif_text.h>
 #include <potassco/smodels.h>
@@ -83,7 +83,7 @@ int main() {
 			Recorder r(rec);
 			int rc = 0;
 			if (primed && mode >= 0 && mode <= 2) { // reader reuse: the primer's calls are dropped, then the case's text is read exactly like readAspif/readSmodels/readProgram do
-				std::istringstream pr(mode == 0 ? reuse::ASPIF_PRIMER : mode == 2 ? reuse::TEXT_PRIMER : (opts & 1) ? reuse::SMODELS_PRIMER_EXT : reuse::SMODELS_PRIMER);
+				std::istringstream pr(std::string(mode == 0 ? reuse::aspifPrimer(c).text : mode == 2 ? reuse::textPrimer(c).text : reuse::smodelsPrimer(c, (opts & 1) != 0).text));
 				if      (mode == 0) { Potassco::AspifInput rd(r);              reuse::prime(rd, pr); rec.s.clear(); rc = Potassco::readProgram(is, rd, &onError); }
 				else if (mode == 1) { Potassco::SmodelsInput rd(r, smOpts(opts)); reuse::prime(rd, pr); rec.s.clear(); rc = Potassco::readProgram(is, rd, &onError); }
 				else                { Potassco::AspifTextInput rd(&r);         reuse::prime(rd, pr); rec.s.clear(); rc = Potassco::readProgram(is, rd, &onError); }
